@@ -25,6 +25,13 @@ Theorem C17_at_most_once_count : forall c kn ops w,
 Proof. exact Proof.C17.at_most_once_count. Qed.
 Print Assumptions C17_at_most_once_count.
 
+(* the same, in the form the driver observes on the real waiter channels: after the schedule
+   no call has a second result sitting in (or blocked on) its one-slot channel *)
+Theorem C17_no_surplus_send : forall c kn ops,
+  wf ops = true -> no_surplus (model_surplus (run c kn ops) ops) = true.
+Proof. exact Proof.C17.no_surplus_send. Qed.
+Print Assumptions C17_no_surplus_send.
+
 (* at least once, shutdown: when the event loop has exited every call has its result *)
 Theorem C17_answered_when_stopped : forall c kn ops,
   wf ops = true -> stopped (run c kn ops) = true ->
